@@ -25,7 +25,7 @@ assert run("git -C /repo diff --quiet").returncode == 0
 assert run(f"git -C /repo apply {patch}").returncode == 0
 try:
     for c in checks:
-        r = run(f"./check {c} --tier quick", cwd="/verif")
+        r = run(f"VERIF_EVIDENCE_DIR=/tmp/mut-evidence-confirm ./check {c} --tier quick", cwd="/verif")
         det[c] = {"exit": r.returncode, "violations": r.stdout.count("\nVIOLATION") + r.stdout.startswith("VIOLATION")}
 finally:
     run("git -C /repo checkout -- .")
